@@ -53,8 +53,11 @@ ASSUMPTIONS = ["input_index >= 0 (a negative Python index wraps around; outside 
 # ---------------------------------------------------------------------------
 # canonical argument encodings  <->  library objects
 
-def mk_script(v):
+def mk_script(v, lazy=False):
+    """lazy: an empty script is made by the constructor's default, Script(), instead of Script([])"""
     cmds, raw = v
+    if lazy and not cmds and not raw:
+        return Script()
     s = Script(list(cmds))
     if raw:
         s.raw = raw[0]
@@ -65,24 +68,54 @@ def mk_opt_script(v):
     return mk_script(v[0]) if v else None
 
 
-def mk_txin(v, spent=None):
+DEFAULT_SEQUENCE = 0xffffffff        # what the documentation (and BIP68 "final") says TxIn(...) without a sequence has
+DEFAULT_LOCKTIME = 0                 # ... and Tx(...) without a locktime
+
+
+def _lazy_style(pt):
+    """The canonical argument value does not say HOW an object with these field values is built.  Two ways exist:
+    every field passed / assigned explicitly, or left to the constructor's default wherever the value equals the
+    documented default (TxIn(prev_tx, prev_index) alone: Script(), Sequence(), a never-assigned Witness()).  The way
+    is derived from the content (last byte of the outpoint hash odd = through the defaults) so that every generator
+    of this module exercises both and a replay rebuilds the same objects."""
+    return isinstance(pt, (bytes, bytearray)) and len(pt) > 0 and pt[-1] & 1 == 1
+
+
+def mk_txin(v, spent=None, lazy=None):
     pt, pi, sc, sq, wit = v
-    ti = TxIn(pt, pi, mk_script(sc), sq)
-    ti.witness = Witness(list(wit))
+    if lazy is None:
+        lazy = _lazy_style(pt)
+    if not lazy:
+        ti = TxIn(pt, pi, mk_script(sc), sq)
+        ti.witness = Witness(list(wit))
+    else:
+        kw = {}
+        if sc[0] or sc[1]:
+            kw["script_sig"] = mk_script(sc)
+        if sq != DEFAULT_SEQUENCE:
+            kw["sequence"] = sq
+        ti = TxIn(pt, pi, **kw)
+        if wit:                                   # an empty witness is the one the constructor made: never assigned
+            ti.witness = Witness(list(wit))
     if spent is not None:
         ti._value = spent[0]
-        ti._script_pubkey = mk_script(spent[1])
+        ti._script_pubkey = mk_script(spent[1], lazy)
     return ti
 
 
-def mk_txout(v):
-    return TxOut(v[0], mk_script(v[1]))
+def mk_txout(v, lazy=None):
+    if lazy is None:
+        lazy = v[0] & 1 == 1
+    return TxOut(v[0], mk_script(v[1], lazy))
 
 
 def mk_tx(v, spent):
     ver, ins, outs, lt = v
     tins = [mk_txin(i, spent[k] if k < len(spent) else None) for k, i in enumerate(ins)]
-    return Tx(ver, tins, [mk_txout(o) for o in outs], lt, network="mainnet", segwit=True)
+    touts = [mk_txout(o) for o in outs]
+    if lt == DEFAULT_LOCKTIME and ver & 1 == 0:
+        return Tx(ver, tins, touts, network="mainnet", segwit=True)         # locktime left to the default
+    return Tx(ver, tins, touts, lt, network="mainnet", segwit=True)
 
 
 def _copy_script(s):
@@ -213,7 +246,17 @@ def apply_op(t, op):
     elif k == 4:
         t.locktime = Locktime(op[1])
     elif k == 5:
-        t.tx_ins[op[1]].witness = Witness(list(op[2]))
+        _set_witness(t.tx_ins[op[1]], op[2])
+
+
+def _set_witness(ti, items):
+    """'the witness of this input becomes items': by assigning a new Witness object (what the finalize_* helpers
+    do) when the number of items is even, by editing the list of the Witness object the input already has, in
+    place, when it is odd (what finalize_p2tr_multisig and hand-written signing code do).  Same value either way."""
+    if len(items) & 1:
+        ti.witness.items[:] = list(items)
+    else:
+        ti.witness = Witness(list(items))
 
 
 def guarded(f):
@@ -255,14 +298,37 @@ def i_sig_hash(tx, spent, idx, ht):
     return q_dispatch(mk_tx(tx, spent), idx, ht)
 
 
+def _scrub(*txs):
+    """Empties, in place, every list that a case may have edited in place (witness items, script commands of the
+    Tx objects of the case).  Run when a case is over, after its verdict: should one of those lists turn out to be
+    shared with objects outside the case (a process-wide default), nothing the case put there outlives the case, so
+    that every case — and every replay — is judged on its own inputs."""
+    for t in txs:
+        try:
+            for ti in t.tx_ins:
+                for lst in (getattr(ti.witness, "items", None), getattr(ti.script_sig, "commands", None),
+                            getattr(ti._script_pubkey, "commands", None)):
+                    if isinstance(lst, list):
+                        del lst[:]
+            for to in t.tx_outs:
+                lst = getattr(to.script_pubkey, "commands", None)
+                if isinstance(lst, list):
+                    del lst[:]
+        except Exception:  # noqa
+            pass
+
+
 def i_history(tx, spent, ops):
     t = mk_tx(tx, spent)
     out = []
-    for op in ops:
-        if op[0] == 0:
-            out.append(guarded(lambda: run_query(t, op[1], op[2], op[3])))
-        else:
-            apply_op(t, op)
+    try:
+        for op in ops:
+            if op[0] == 0:
+                out.append(guarded(lambda: run_query(t, op[1], op[2], op[3])))
+            else:
+                apply_op(t, op)
+    finally:
+        _scrub(t)
     return out
 
 
@@ -782,15 +848,18 @@ def p_history_fresh(tx, spent, ops):
     """Every Query on the long-lived object equals the same Query on a fresh object built from the
     current fields (and, for dispatch queries, the reference)."""
     t = mk_tx(tx, spent)
-    for step, op in enumerate(ops):
-        if op[0] != 0:
-            apply_op(t, op)
-            continue
-        f = fresh_copy(t)
-        a = guarded(lambda: run_query(t, op[1], op[2], op[3]))
-        b = guarded(lambda: run_query(f, op[1], op[2], op[3]))
-        if a != b:
-            return f"step {step}: object with history returned {_show(a)}, fresh object {_show(b)}"
+    try:
+        for step, op in enumerate(ops):
+            if op[0] != 0:
+                apply_op(t, op)
+                continue
+            f = fresh_copy(t)
+            a = guarded(lambda: run_query(t, op[1], op[2], op[3]))
+            b = guarded(lambda: run_query(f, op[1], op[2], op[3]))
+            if a != b:
+                return f"step {step}: object with history returned {_show(a)}, fresh object {_show(b)}"
+    finally:
+        _scrub(t)
     return None
 
 
@@ -807,11 +876,51 @@ def p_history_fresh(tx, spent, ops):
 #  19 a data element of the spent scriptPubKey overwritten in place (same length, same template)
 #  20 list-level edits: outputs reversed in place, first/last input swapped in place, tx_outs / tx_ins rebound to a copy
 #  21 segwit flag toggled (no influence on any digest)
+# IN-PLACE list edits on the objects the transaction ALREADY HAS (also the ones a constructor made by default):
+#  22 witness.items: append / insert(0) / extend / += / pop(0) / del [:] / [:] = / reverse / clear
+#  23 script_sig.commands: append / insert(0) / extend / pop / del [:]
+#  24 tx_ins list: extend / += / pop(i) / reverse           25 tx_outs list: extend / += / pop(i) / del [:]
+#  26 commands of an output script: append / insert(0) / extend / pop / del [:] / [:] = template
+#  27 commands of the spent scriptPubKey object of an input: the same six
 EDIT_NAMES = {1: "output-replace/append", 2: "input-replace/append", 3: "sequence", 4: "locktime", 5: "witness-replace",
               6: "output-remove", 7: "output-insert", 8: "input-remove", 9: "input-insert", 10: "version",
               11: "spent-amount", 12: "spent-scriptpubkey", 13: "output-amount-in-place", 14: "output-script-in-place",
               15: "outpoint-in-place", 16: "script_sig", 17: "witness-items-in-place", 18: "output-script-element-in-place",
-              19: "spent-script-element-in-place", 20: "list-level", 21: "segwit-flag"}
+              19: "spent-script-element-in-place", 20: "list-level", 21: "segwit-flag",
+              22: "witness-list-ops-in-place", 23: "script_sig-commands-in-place", 24: "tx_ins-list-ops-in-place",
+              25: "tx_outs-list-ops-in-place", 26: "output-script-commands-in-place",
+              27: "spent-script-commands-in-place"}
+LIST_SUBOPS = ["append", "insert0", "extend", "iadd", "pop0", "del-slice", "slice-assign", "reverse", "clear", "pop"]
+
+
+def _list_edit(sub, lst, shadow, new):
+    """the same in-place edit on the library object's list and on the shadow value's list; new: list of elements"""
+    name = LIST_SUBOPS[sub % len(LIST_SUBOPS)]
+    for target in (lst, shadow):
+        vals = list(new)
+        if name == "append":
+            for x in vals[:1]:
+                target.append(x)
+        elif name == "insert0":
+            for x in vals[:1]:
+                target.insert(0, x)
+        elif name == "extend":
+            target.extend(vals)
+        elif name == "iadd":
+            target += vals
+        elif name == "pop0":
+            if target:
+                target.pop(0)
+        elif name == "del-slice":
+            del target[:]
+        elif name == "slice-assign":
+            target[:] = vals
+        elif name == "reverse":
+            target.reverse()
+        elif name == "clear":
+            target.clear()
+        elif target:
+            target.pop()
 
 
 def _first_data(cmds):
@@ -853,7 +962,7 @@ def apply_ext(t, sh, op):
         tx[3] = op[1]
     elif k == 5:
         i = op[1] % len(ins)
-        t.tx_ins[i].witness = Witness(list(op[2]))
+        _set_witness(t.tx_ins[i], op[2])
         ins[i][4] = list(op[2])
     elif k == 6:
         if outs:
@@ -943,18 +1052,81 @@ def apply_ext(t, sh, op):
             t.tx_ins = list(t.tx_ins)
     elif k == 21:
         t.segwit = not t.segwit
+    elif k == 22:
+        i = op[1] % len(ins)
+        _list_edit(op[2], t.tx_ins[i].witness.items, ins[i][4], op[3])
+    elif k == 23:
+        i = op[1] % len(ins)
+        if not ins[i][2][1]:
+            _list_edit(op[2], t.tx_ins[i].script_sig.commands, ins[i][2][0], op[3])
+    elif k == 24:
+        name = LIST_SUBOPS[op[1] % len(LIST_SUBOPS)]
+        new = [mk_txin(v, sp) for v, sp in zip(op[3], op[4])]
+        if name in ("extend", "append", "insert0", "slice-assign"):
+            t.tx_ins.extend(new)
+            ins.extend(op[3])
+            spent.extend(op[4])
+        elif name == "iadd":
+            t.tx_ins += new
+            ins += op[3]
+            spent += op[4]
+        elif name == "reverse":
+            for lst in (t.tx_ins, ins, spent):
+                lst.reverse()
+        elif len(ins) > 1:
+            i = op[2] % len(ins)
+            for lst in (t.tx_ins, ins, spent):
+                lst.pop(i)
+    elif k == 25:
+        name = LIST_SUBOPS[op[1] % len(LIST_SUBOPS)]
+        new = [mk_txout(v) for v in op[3]]
+        if name in ("extend", "append", "insert0", "slice-assign"):
+            t.tx_outs.extend(new)
+            outs.extend(op[3])
+        elif name == "iadd":
+            t.tx_outs += new
+            outs += op[3]
+        elif name in ("del-slice", "clear"):
+            del t.tx_outs[:]
+            del outs[:]
+        elif name == "reverse":
+            t.tx_outs.reverse()
+            outs.reverse()
+        elif outs:
+            i = op[2] % len(outs)
+            t.tx_outs.pop(i)
+            outs.pop(i)
+    elif k in (26, 27):
+        if k == 26 and not outs:
+            return
+        i = op[1] % len(outs if k == 26 else ins)
+        obj = t.tx_outs[i].script_pubkey if k == 26 else t.tx_ins[i]._script_pubkey
+        val = outs[i][1] if k == 26 else spent[i][1]
+        if val[1]:
+            return
+        _list_edit(op[2], obj.commands, val[0], op[3])
     else:
         raise ValueError("unknown operation %r" % (k,))
 
 
+NO_DIGEST = "no-digest-defined"
+
+
 def ref_query(sh, alg, idx, ht):
-    """What the standards say for this query on the shadow value: [alg, [preimage], digest], or None = no claim."""
+    """What the standards say for this query on the shadow value: [alg, [preimage], digest]; None = no claim;
+    NO_DIGEST = Tx.sig_hash has nothing to hash here (a p2wsh / p2tr spend without witness, a p2sh spend without
+    redeem script, ...: the call must fail, as in digest_eq_reference)."""
     tx, spent = sh
     if idx >= len(tx[1]):
         return None
     k = alg[0]
     if k == 3:
-        return ref_sig_hash(tx, spent, idx, ht)
+        r = ref_sig_hash(tx, spent, idx, ht)
+        if r is None and not tx[1][idx][4] and ref_classify(ref_raw_script(spent[idx][1]))[0] == "p2tr":
+            # an UNSIGNED taproot input: the digest a key-path signer needs (BIP341 message, no annex, no extension)
+            m = ref_bip341(RTx(tx, spent), idx, ht, [bytes(64)])
+            r = None if m is None else [341, [m[0]], m[1]]
+        return NO_DIGEST if r is None else r
     t = RTx(tx, spent)
     if k == 0:
         code = ref_raw_script(alg[1][0] if alg[1] else spent[idx][1])
@@ -984,26 +1156,162 @@ def p_history_ext(tx, spent, ops):
         return _history_ext(tx, spent, ops)
 
 
+def _ext_query(t, sh, op, step, stats=None):
+    """one digest query of an extended history: None, or the description of the failure"""
+    idx = op[2] % len(t.tx_ins)
+    f = fresh_copy(t)
+    a = guarded(lambda: run_query(t, op[1], idx, op[3]))
+    b = guarded(lambda: run_query(f, op[1], idx, op[3]))
+    if a != b:
+        return (f"step {step}: the object with this history returned {_show(a)}, a fresh object with the same "
+                f"fields {_show(b)}")
+    ref = ref_query(sh, op[1], idx, op[3])
+    if stats is not None:
+        stats[(op[1][0], "raises" if a is ERR else "digest",
+               "no-claim" if ref is None else "no-digest" if ref is NO_DIGEST else "reference")] += 1
+    if ref is NO_DIGEST:
+        if a is not ERR:
+            return (f"step {step}: input {idx}, hash type {hex(op[3])}: the current transaction and spent outputs "
+                    f"define no digest here (nothing to take the script code from), the object with this history "
+                    f"returned {_show(a)}; witness of that input as the object holds it: "
+                    f"{[bytes(x).hex()[:24] for x in t.tx_ins[idx].witness.items]}, as it was built and edited: "
+                    f"{[x.hex()[:24] for x in sh[0][1][idx][4]]}")
+    elif ref is not None and a != ref:
+        return (f"step {step}: input {idx}, hash type {hex(op[3])}: the object with this history returned {_show(a)}, "
+                f"the reference for the current transaction gives {_show(ref)}; witness of that input as the object "
+                f"holds it: {[bytes(x).hex()[:24] for x in t.tx_ins[idx].witness.items]}, as it was built and edited: "
+                f"{[x.hex()[:24] for x in sh[0][1][idx][4]]}")
+    return None
+
+
 def _history_ext(tx, spent, ops, stats=None):
     t = mk_tx(tx, spent)
     sh = copy.deepcopy([tx, spent])
-    for step, op in enumerate(ops):
-        if op[0] != 0:
-            apply_ext(t, sh, op)
-            continue
-        idx = op[2] % len(t.tx_ins)
-        f = fresh_copy(t)
-        a = guarded(lambda: run_query(t, op[1], idx, op[3]))
-        b = guarded(lambda: run_query(f, op[1], idx, op[3]))
-        if a != b:
-            return (f"step {step}: the object with this history returned {_show(a)}, a fresh object with the same "
-                    f"fields {_show(b)}")
-        ref = ref_query(sh, op[1], idx, op[3])
-        if stats is not None:
-            stats[(op[1][0], "raises" if a is ERR else "digest", "no-claim" if ref is None else "reference")] += 1
-        if ref is not None and a != ref:
-            return (f"step {step}: the object with this history returned {_show(a)}, the reference for the current "
-                    f"transaction gives {_show(ref)}")
+    try:
+        for step, op in enumerate(ops):
+            if op[0] != 0:
+                apply_ext(t, sh, op)
+                continue
+            msg = _ext_query(t, sh, op, step, stats)
+            if msg is not None:
+                return msg
+    finally:
+        _scrub(t)
+    return None
+
+
+# ---------------------------------------------------------------------------
+# several objects: "the digest depends only on the current transaction and spent outputs" ACROSS objects.
+#
+# A world is a list of transactions, each built in one of the ways a caller can build it; the history interleaves
+# edits (the whole extended alphabet, on any object) with digest queries on any input of any object; objects may be
+# created in the middle of the history (after edits of the others).  Every query must equal the independent
+# reference evaluated on the shadow value of ITS OWN object: nothing done to another object, before or after this
+# one was created, may show.
+BUILD_STYLES = ["constructor-defaults", "explicit-arguments", "parsed-from-bytes", "defaults-then-filled-in-place",
+                "as-mk_tx"]
+
+
+def ref_serialize(tx):
+    """consensus serialisation of a canonical transaction value (legacy form when no input has a witness)"""
+    ver, ins, outs, lt = tx
+    segwit = any(i[4] for i in ins)
+    s = _u32(ver) + (b"\x00\x01" if segwit else b"") + _cs(len(ins))
+    for pt, pi, sc, sq, _w in ins:
+        s += _ser_in(pt[::-1], pi, ref_raw_script(sc), sq)
+    s += _cs(len(outs)) + b"".join(_ser_out((a, ref_raw_script(sc))) for a, sc in outs)
+    if segwit:
+        for i in ins:
+            s += _cs(len(i[4])) + b"".join(_sscript(x) for x in i[4])
+    return s + _u32(lt)
+
+
+def build_tx(style, tx, spent):
+    """A Tx object with the field values of the canonical value tx (and the spent outputs preset), built the way
+    BUILD_STYLES[style] says."""
+    ver, ins, outs, lt = tx
+    name = BUILD_STYLES[style % len(BUILD_STYLES)]
+    if name == "as-mk_tx":
+        return mk_tx(tx, spent)
+    if name == "explicit-arguments":
+        tins = [mk_txin(i, spent[k], lazy=False) for k, i in enumerate(ins)]
+        return Tx(ver, tins, [mk_txout(o, lazy=False) for o in outs], lt, network="mainnet", segwit=True)
+    if name == "parsed-from-bytes":
+        t = Tx.parse(io.BytesIO(ref_serialize(tx)))
+        for ti, sp in zip(t.tx_ins, spent):
+            ti._value = sp[0]
+            ti._script_pubkey = Script.parse(io.BytesIO(_sscript(ref_raw_script(sp[1]))))
+        return t
+    if name == "constructor-defaults":
+        tins = [mk_txin(i, spent[k], lazy=True) for k, i in enumerate(ins)]
+        touts = [mk_txout(o, lazy=True) for o in outs]
+        return Tx(ver, tins, touts) if lt == DEFAULT_LOCKTIME else Tx(ver, tins, touts, lt)
+    # everything from the bare constructors, then filled in with in-place list operations
+    t = Tx(ver, [], [])
+    if lt != DEFAULT_LOCKTIME:
+        t.locktime = Locktime(lt)
+    for k, (pt, pi, sc, sq, wit) in enumerate(ins):
+        ti = TxIn(pt, pi)
+        if sq != DEFAULT_SEQUENCE:
+            ti.sequence = Sequence(sq)
+        if sc[1]:
+            ti.script_sig = mk_script(sc)
+        else:
+            for c in sc[0]:
+                ti.script_sig.commands.append(c)
+        ti.witness.items.extend(wit)
+        ti._value = spent[k][0]
+        ti._script_pubkey = Script()
+        if spent[k][1][1]:
+            ti._script_pubkey = mk_script(spent[k][1])
+        else:
+            ti._script_pubkey.commands.extend(spent[k][1][0])
+        t.tx_ins.append(ti)
+    for am, sc in outs:
+        to = TxOut(am, Script())
+        if sc[1]:
+            to.script_pubkey = mk_script(sc)
+        else:
+            to.script_pubkey.commands += list(sc[0])
+        t.tx_outs.append(to)
+    return t
+
+
+def p_history_world(txs, ops):
+    """txs: [[build style, tx, spent], ...]; ops: [[object, op], ...] with op a query or an edit of the extended
+    alphabet, or [-1] = 'object number `object` is created now' (objects without such a step exist from the start).
+    Every query on every object equals the reference for that object's own current fields (and a fresh copy)."""
+    with contextlib.redirect_stdout(io.StringIO()):
+        return _history_world(txs, ops)
+
+
+def _history_world(txs, ops, stats=None):
+    later = {j for j, op in ops if op[0] == -1}
+    world = {}
+
+    def create(j):
+        style, tx, spent = txs[j]
+        world[j] = (build_tx(style, tx, spent), copy.deepcopy([tx, spent]))
+    try:
+        for j in range(len(txs)):
+            if j not in later:
+                create(j)
+        for step, (j, op) in enumerate(ops):
+            if op[0] == -1:
+                create(j)
+                continue
+            if j not in world:
+                continue
+            t, sh = world[j]
+            if op[0] != 0:
+                apply_ext(t, sh, op)
+                continue
+            msg = _ext_query(t, sh, op, step, stats)
+            if msg is not None:
+                made = "made during the history" if j in later else "made at the start"
+                return f"object {j} ({BUILD_STYLES[txs[j][0] % len(BUILD_STYLES)]}, {made}): " + msg
+    finally:
+        _scrub(*[t for t, _sh in world.values()])
     return None
 
 
@@ -1293,6 +1601,7 @@ PROPS = {
     "has_annex_bip341": p_has_annex,
     "history_fresh": p_history_fresh,
     "history_ext": p_history_ext,
+    "history_world": p_history_world,
     "script_code_raw": p_script_code_raw,
     "verifier_digest": p_verifier_digest,
     "signer_digest": p_signer_digest,
@@ -1527,7 +1836,179 @@ def r_edit(ctx, k):
         return [k, i, ctx.rbytes(4)]
     if k == 20:
         return [20, r.randrange(4)]
+    if k == 22:
+        return [22, i, r.randrange(len(LIST_SUBOPS)), witness_payload(ctx, r.randrange(len(PAYLOADS)))]
+    if k == 23:
+        return [23, i, r.randrange(len(LIST_SUBOPS)),
+                r.choice([[b"\x00\x20" + ctx.rbytes(32)], [b"\x00\x14" + ctx.rbytes(20)], [r_sig(ctx), b"\x02" + ctx.rbytes(32)],
+                          [0x51], [0, r_sig(ctx), ref_raw_script(S(multisig_cmds(ctx, 1, 2)))]])]
+    if k == 24:
+        new = [unsigned_input(ctx, r.choice(U_KINDS), r.random() < 0.8) for _ in range(r.choice([1, 1, 2]))]
+        return [24, r.randrange(len(LIST_SUBOPS)), i, [a for a, _b in new], [b for _a, b in new]]
+    if k == 25:
+        return [25, r.randrange(len(LIST_SUBOPS)), i,
+                [[r_amount(r), r.choice([S([]), r_out_script(ctx)])] for _ in range(r.choice([1, 1, 2]))]]
+    if k in (26, 27):
+        return [k, i, r.randrange(len(LIST_SUBOPS)),
+                r.choice([[0x51, ctx.rbytes(32)], [0x00, ctx.rbytes(32)], [0x00, ctx.rbytes(20)], [0xa9, ctx.rbytes(20), 0x87],
+                          [0x76, 0xa9, ctx.rbytes(20), 0x88, 0xac], [0x6a, ctx.rbytes(r.choice([1, 20, 80]))], [0x51]])]
     return [21]
+
+
+# ---------------------------------------------------------------------------
+# unsigned inputs (what a wallet has before signing: no witness, no or only the redeem-script scriptSig, default
+# sequence), the shape in which objects made by the constructors' defaults occur; and the witnesses that signing
+# code then puts there
+
+U_KINDS = ["p2tr", "p2wsh", "p2sh-p2wsh", "p2sh", "p2wpkh", "p2pkh", "p2sh-p2wpkh", "bare-empty"]
+PAYLOADS = ["key-sig+annex", "script-path", "script-path+annex", "p2wsh-stack", "key-sig", "single-0x50-item", "two-sigs"]
+
+
+def unsigned_input(ctx, kind, lazy=True, default_seq=True):
+    r = ctx.rng
+    script_sig = S([])
+    if kind == "p2tr":
+        spk = S([0x51, ctx.rbytes(32)])
+    elif kind == "p2wsh":
+        spk = S([0x00, ctx.rbytes(32)])
+    elif kind == "p2sh-p2wsh":
+        spk, script_sig = S([0xa9, ctx.rbytes(20), 0x87]), S([b"\x00\x20" + ctx.rbytes(32)])
+    elif kind == "p2sh":
+        spk = S([0xa9, ctx.rbytes(20), 0x87])
+    elif kind == "p2wpkh":
+        spk = S([0x00, ctx.rbytes(20)])
+    elif kind == "p2pkh":
+        spk = S([0x76, 0xa9, ctx.rbytes(20), 0x88, 0xac])
+    elif kind == "p2sh-p2wpkh":
+        spk, script_sig = S([0xa9, ctx.rbytes(20), 0x87]), S([b"\x00\x14" + ctx.rbytes(20)])
+    else:
+        spk = S([])
+    pt = ctx.rbytes(31) + bytes([(r.randrange(128) << 1) | (1 if lazy else 0)])
+    return [pt, r.choice([0, 1, 7]), script_sig, DEFAULT_SEQUENCE if default_seq else r_seq(r), []], [r_amount(r), spk]
+
+
+def unsigned_tx(ctx, kinds, n_out=2, lazy=True, empty_out_scripts=False):
+    r = ctx.rng
+    both = [unsigned_input(ctx, k, lazy, default_seq=(j % 3 != 2)) for j, k in enumerate(kinds)]
+    outs = [[r_amount(r), S([]) if empty_out_scripts else r_out_script(ctx)] for _ in range(n_out)]
+    return [r.choice([1, 2, 2]), [a for a, _b in both], outs, r.choice([0, 0, r_lock(r)])], [b for _a, b in both]
+
+
+def witness_payload(ctx, k):
+    name = PAYLOADS[k % len(PAYLOADS)]
+    ts = ref_raw_script(S([ctx.rbytes(32), 0xac]))
+    if name == "key-sig+annex":
+        return [ctx.rbytes(64), r_annex(ctx)]
+    if name == "script-path":
+        return [ctx.rbytes(64), ts, control_block(ctx)]
+    if name == "script-path+annex":
+        return [ctx.rbytes(64), ts, control_block(ctx), r_annex(ctx)]
+    if name == "p2wsh-stack":
+        return [b"", r_sig(ctx), ref_raw_script(S(multisig_cmds(ctx, 1, 2)))]
+    if name == "key-sig":
+        return [ctx.rbytes(65)]
+    if name == "single-0x50-item":
+        return [b"\x50" + ctx.rbytes(63)]
+    return [ctx.rbytes(64), ctx.rbytes(64)]
+
+
+def sweep(ctx, txs, objs, rot=0):
+    """digest queries on every input of the given objects: the dispatcher and the BIP341 builder on each"""
+    out = []
+    n = rot
+    for j in objs:
+        for i in range(len(txs[j][1][1])):
+            out.append([j, [0, [3], i, HASH_TYPES[n % 7]]])
+            out.append([j, [0, [2, 0], i, HASH_TYPES[(n + 3) % 7]]])
+            n += 1
+    return out
+
+
+def world_histories(ctx):
+    r = ctx.rng
+    n_styles = len(BUILD_STYLES)
+    # (a) a witness is put in place on ONE input of ONE object; every other input of every object — made before,
+    #     made afterwards — must keep its digest.  build style x payload x form of the edit.
+    forms = [("append-each", None)] + [(LIST_SUBOPS[s], s) for s in (1, 2, 3, 6)] + [("op17-append", None), ("set-witness", None)]
+    n = 0
+    for style in range(n_styles):
+        for pk in range(len(PAYLOADS)):
+            for form, sub in forms:
+                n += 1
+                txs = [[style, *unsigned_tx(ctx, ["p2tr", "p2tr", "p2wsh"], 2, lazy=(style != 1))],
+                       [(style + n) % n_styles, *unsigned_tx(ctx, ["p2sh-p2wsh", "p2tr"], 3, lazy=bool(n & 1))],
+                       [style, *unsigned_tx(ctx, ["p2tr", "p2wsh", "p2tr"], 1, lazy=(style != 1))]]
+                pay = witness_payload(ctx, pk)
+
+                def edit(obj, i):
+                    if form == "append-each":
+                        return [[obj, [22, i, 0, [x]]] for x in pay]
+                    if form == "op17-append":
+                        return [[obj, [17, i, 0, x]] for x in pay]
+                    if form == "set-witness":
+                        return [[obj, [5, i, pay]]]
+                    if form == "insert0":
+                        return [[obj, [22, i, sub, [x]]] for x in reversed(pay)]
+                    return [[obj, [22, i, sub, pay]]]
+                ops = (sweep(ctx, txs, [0], n) if n % 4 == 0 else []) + edit(0, n % 2) + sweep(ctx, txs, [0, 1], n)
+                ops += [[2, [-1]]] + sweep(ctx, txs, [2], n + 1) + edit(2, 1 + n % 2) + sweep(ctx, txs, [1, 2, 0], n + 2)
+                ctx.label("history-world/witness-in-place/" + BUILD_STYLES[style] + "/" + PAYLOADS[pk])
+                ctx.label("history-world/edit-form/" + form)
+                yield ("prop", "history_world", [txs, ops])
+    # (b) the same for scripts made by Script(): scriptSig commands, output scripts, spent scriptPubKey objects
+    tmpl = [[b"\x00\x20" + ctx.rbytes(32)], [0x51, ctx.rbytes(32)], [0x00, ctx.rbytes(32)], [0x6a, ctx.rbytes(20)],
+            [b"\x00\x14" + ctx.rbytes(20)], [0xa9, ctx.rbytes(20), 0x87]]
+    for style in range(n_styles):
+        for k in (23, 26, 27):
+            for sub in (0, 1, 2, 3, 6):
+                n += 1
+                txs = [[style, *unsigned_tx(ctx, ["p2sh", "p2sh", "bare-empty", "bare-empty"], 3, lazy=(style != 1), empty_out_scripts=True)],
+                       [(style + n) % n_styles, *unsigned_tx(ctx, ["bare-empty", "p2sh", "p2tr"], 2, lazy=bool(n & 1), empty_out_scripts=True)],
+                       [style, *unsigned_tx(ctx, ["p2sh", "bare-empty"], 2, lazy=(style != 1), empty_out_scripts=True)]]
+                t1, t2 = tmpl[n % len(tmpl)], tmpl[(n + 1) % len(tmpl)]
+
+                def q(j, i, m):
+                    return [j, [0, [[3], [0, []], [3], [2, 0]][m % 4], i, HASH_TYPES[(n + m) % 7]]]
+
+                def allq(objs):
+                    return [q(j, i, i + j + x) for j in objs for i in range(len(txs[j][1][1])) for x in (0, 1)]
+                first = 2 * (n % 2) if k == 27 else n % 2      # p2sh inputs for scriptSig edits, the empty spk for 27
+                ops = [[0, [k, first, sub, t1]]] + allq([0, 1]) + [[2, [-1]]] + allq([2])
+                ops += [[2, [k, 1 if k != 23 else 0, sub, t2]]] + allq([0, 1, 2])
+                ctx.label("history-world/script-in-place/" + EDIT_NAMES[k] + "/" + BUILD_STYLES[style])
+                yield ("prop", "history_world", [txs, ops])
+    # (c) inputs / outputs added to the lists in place (tx_ins / tx_outs of a transaction that started empty or not)
+    for style in range(n_styles):
+        for k in (24, 25):
+            for sub in (2, 3, 4, 7):
+                n += 1
+                txs = [[style, *unsigned_tx(ctx, ["p2tr", "p2wpkh"], 1, lazy=(style != 1))],
+                       [(style + 1) % n_styles, *unsigned_tx(ctx, ["p2tr", "p2pkh"], 2, lazy=True)]]
+                e = r_edit(ctx, k)
+                e[1] = sub
+                ops = sweep(ctx, txs, [0, 1], n) + [[0, e]] + sweep(ctx, txs, [0, 1], n + 1)
+                ops += [[0, [22, 9, 2, witness_payload(ctx, n)]]] + [[j, [0, [3], i, 1]] for j in (0, 1) for i in range(4)]
+                ctx.label("history-world/list-in-place/" + EDIT_NAMES[k])
+                yield ("prop", "history_world", [txs, ops])
+    # (d) random walks over a world of 2..3 objects: any edit of the extended alphabet on any object, creation in
+    #     the middle, queries everywhere
+    for _ in range(ctx.n(80, 1500)):
+        kinds = [[r.choice(U_KINDS[:4]) for _ in range(r.choice([2, 3]))] for _ in range(r.choice([2, 3]))]
+        txs = [[r.randrange(n_styles), *unsigned_tx(ctx, ks, r.choice([1, 2, 3]), lazy=r.random() < 0.8,
+                                                    empty_out_scripts=r.random() < 0.3)] for ks in kinds]
+        ops = []
+        if r.random() < 0.6:
+            ops.append([len(txs) - 1, [-1]])
+        for _ in range(r.randrange(3, 8)):
+            j = r.randrange(len(txs))
+            k = r.choice([22, 22, 17, 23, 26, 27, 5, 24, 25] + EDIT_KINDS)
+            ctx.label("history-world/walk/" + EDIT_NAMES[k])
+            ops.append([j, r_edit(ctx, k)])
+            for _ in range(r.choice([1, 2, 3])):
+                ops.append([r.randrange(len(txs)), r_query(ctx, dispatch_only=r.random() < 0.5)])
+        r.shuffle(ops)
+        ops += [[j, r_query(ctx)] for j in range(len(txs)) for _ in range(2)]
+        yield ("prop", "history_world", [txs, ops])
 
 
 def r_query(ctx, dispatch_only=False):
@@ -1551,9 +2032,17 @@ def ext_histories(ctx):
     r = ctx.rng
     bases = [["p2wpkh", "p2tr-key", "p2pkh"], ["p2tr-script", "p2wsh"], ["p2sh-p2wpkh", "p2tr-key-annex", "bare", "p2wpkh"],
              ["p2sh-multisig", "p2tr-script-annex"], ["p2sh-p2wsh", "p2pkh", "p2tr-key"]]
-    for bi in range(ctx.n(4, 10)):
-        kinds = bases[bi % len(bases)]
-        tx, spent = make_tx(ctx, len(kinds), r.choice([2, 3]), kinds)
+    # unsigned transactions whose inputs are made through the constructors' defaults (see _lazy_style): the edits
+    # then act on the Script() / Witness() objects the constructors made
+    ubases = [["p2tr", "p2tr", "p2wsh"], ["p2sh-p2wsh", "p2tr", "p2sh"], ["p2wsh", "bare-empty", "p2tr", "bare-empty"]]
+    for bi in range(ctx.n(4, 10) + ctx.n(2, 6)):
+        if bi < ctx.n(4, 10):
+            kinds = bases[bi % len(bases)]
+            tx, spent = make_tx(ctx, len(kinds), r.choice([2, 3]), kinds)
+        else:
+            kinds = ubases[bi % len(ubases)]
+            tx, spent = unsigned_tx(ctx, kinds, r.choice([2, 3]), lazy=True, empty_out_scripts=bool(bi & 1))
+            ctx.label("history-ext/base-unsigned-default-constructed")
         # (a) ask, edit, ask the same again — every kind of edit x one query per builder and input
         queries = [[0, [3], i, ht] for i in range(len(kinds)) for ht in (1, 3, 0x81)]
         queries += [[0, [0, [S(multisig_cmds(ctx, 1, 2))]], 0, 1], [0, [0, []], len(kinds) - 1, 0x83],
@@ -2072,5 +2561,25 @@ def generate(ctx):
             yield ("corr", "history", [tx, spent, ops])
             yield ("prop", "history_fresh", [tx, spent, ops])
 
+    # --- the same alphabet on unsigned transactions built through the constructors' defaults; the witness edit
+    #     of odd length is done in place (see _set_witness); model, implementation and the reference-based predicate
+    for variant in range(ctx.n(2, 6)):
+        tx, spent = unsigned_tx(ctx, [["p2tr", "p2tr"], ["p2wsh", "p2tr"], ["p2tr", "p2sh-p2wsh"]][variant % 3], 2, lazy=True)
+        ni, ns = unsigned_input(ctx, r.choice(["p2tr", "p2wsh"]))
+        alpha = [[0, [3], 0, HASH_TYPES[variant % 7]], [0, [2, 0], 0, HASH_TYPES[(variant + 2) % 7]],
+                 [0, [3], 1, HASH_TYPES[(variant + 4) % 7]],
+                 [1, len(tx[2]), [r_amount(r), r_out_script(ctx)]], [2, 2, ni, ns], [3, 0, r.choice([0, 5])], [4, 7],
+                 [5, 1, witness_payload(ctx, variant)], [5, 1, witness_payload(ctx, variant + 1)],
+                 [5, 0, witness_payload(ctx, variant + 3)], [5, 1, []]]
+        seqs = [list(x) for ln in (1, 2, 3) for x in itertools.product(alpha, repeat=ln) if x[-1][0] == 0]
+        for ops in seqs if ctx.tier != "quick" else r.sample(seqs, 250):
+            ops = [list(o) for o in ops]
+            ctx.label("history/default-constructed-inputs")
+            yield ("corr", "history", [tx, spent, ops])
+            yield ("prop", "history_ext", [tx, spent, ops])
+
     # --- extended histories: every public field edited, inputs/outputs added and removed, all builders on one object
     yield from ext_histories(ctx)
+
+    # --- several objects: edits of one never show in the digests of another (made before or afterwards)
+    yield from world_histories(ctx)
